@@ -53,6 +53,23 @@ Proof.
   eexists. split; [reflexivity|]. cbn. intros [H|[H|[H|[]]]]; discriminate.
 Qed.
 
+(* the connection's registry identity comes from the socket: the only write of the id in
+   IDENTIFY is the initialisation that precedes json.Unmarshal, and the handlers key every
+   registry call by client.peerInfo *)
+Theorem identity_tied :
+  identify_identity = lookupd_IDENTIFY_peerinfo_writes /\ identity_uses = lookupd_identity_uses.
+Proof. split; reflexivity. Qed.
+
+Theorem identity_from_socket :
+  exists post, lookupd_IDENTIFY_peerinfo_writes =
+    ("peerInfo := PeerInfo{id: client.RemoteAddr().String()}"%string :: "call json.Unmarshal(&peerInfo)"%string :: post)
+    /\ forall w, In w post -> w <> "call json.Unmarshal(&peerInfo)"%string /\ prefix "peerInfo.id" w = false
+                             /\ prefix "peerInfo =" w = false /\ prefix "client.peerInfo.id" w = false.
+Proof.
+  eexists. split; [reflexivity|].
+  cbn. intros w [H|[H|[H|[]]]]; subst w; (split; [discriminate|repeat split; reflexivity]).
+Qed.
+
 (* ------------------------------------------------------------------ no panic *)
 Lemma split_sp_nonempty l : split_sp l <> [].
 Proof.
